@@ -130,6 +130,11 @@ def shape_if_selection(with_else):
     return sh
 
 
+def c07_cases(E):
+    """data directives with expression lists of ARBITRARY length (loop contract: one node of the directive's width per expression, in order)"""
+    return [c for c in cases(E) if any(k in c.label for k in ("generate_db", "generate_dw", "generate_dl"))]
+
+
 def c10_cases(E):
     """the .for / .if cases (arbitrary bounds, arbitrary condition, arbitrary sub-trees)"""
     L, C = loop_specs(E), contracts()
@@ -177,6 +182,7 @@ def _havoc_code_only(I, st):
     m = I.fresh_int("code_len")
     st.pc.append(m >= 0)
     st.heap[st.env["code"].oid] = HSymList(m, lambda I2, s2, idx: Opaque("node"), what="code")
+    st.ghost["code_len_before_iteration"] = m
 
 
 def _ghost_expansion(I, st):
@@ -204,7 +210,7 @@ def loop_specs(E):
     L[(G + "_code_gen", 0)] = LoopSpec("_code_gen", H + "inv_expansion", havoc=_havoc_expansion("code"), item=_code_gen_items, modifies=_modifies("code"), ghost=_ghost_expansion)
     L[(G + "generate_for", 0)] = LoopSpec("generate_for", H + "inv_expansion", havoc=_havoc_expansion("code"), modifies=_modifies("code"), ghost=_ghost_expansion, step=H + "step_for")
     for g in ("generate_db", "generate_dw", "generate_dl"):
-        L[(G + g, 0)] = LoopSpec(g, H + "inv_true", havoc=_havoc_code_only, item=_data_items, modifies=lambda I, st: {st.env["code"].oid})
+        L[(G + g, 0)] = LoopSpec(g, H + "inv_true", havoc=_havoc_code_only, item=_data_items, modifies=lambda I, st: {st.env["code"].oid}, step=H + "step_" + g[len("generate_"):])
     return L
 
 
